@@ -3,5 +3,5 @@
 set -e
 cd "$(dirname "$0")"
 python3 ../extract/dropin_gen.py "$PWD/dropin/iceoryx2-pal-concurrency-sync" >/dev/null
-CARGO_NET_OFFLINE=true cargo build --release --offline --features trace --bin steptrace \
+CARGO_PROFILE_RELEASE_DEBUG_ASSERTIONS=false CARGO_NET_OFFLINE=true cargo build --release --offline --features trace --bin steptrace \
    --config "paths=[\"$PWD/dropin/iceoryx2-pal-concurrency-sync\"]" --target-dir "$PWD/target-trace" "$@"
